@@ -63,8 +63,11 @@ def compare(chk, rule, L, key, select=None, where_prefix=""):
     cur = L.by_name(key)
     modname, sname = STRUCTS[key]
     n = 0
+    collapsed = set()  # composites that are now decoded as one field by the same scalar-producing adapter
     for r in ref["leaves"]:
         if select is not None and not select(r["path"]):
+            continue
+        if any(r["path"].startswith(c + ".") for c in collapsed):
             continue
         if r["padding"]:
             continue
@@ -77,6 +80,13 @@ def compare(chk, rule, L, key, select=None, where_prefix=""):
             chk.fail(rule, where, f"MISSING: field {r['path']} of the reference layout no longer exists", key=f"{key}:{r['path']}:missing")
             continue
         now = leaf_record(lf)
+        if {now["kind"], r["kind"]} == {"composite", "field"} and now["offset"] == r["offset"] and now["width"] == r["width"] \
+                and now["codec"][0].split("(")[0] == r["codec"][0].split("(")[0] and r["codec"][0].split("(")[0] in ("AsciiComplex", "DatetimeYdms"):
+            # same bytes, same scalar-producing adapter, different internal representation (struct of parts vs one text):
+            # the adapter's own semantics are decided by the T4 / P3 rules
+            collapsed.add(r["path"])
+            chk.ok(rule, where, f"@{r['offset']} +{r['width']} {now['codec'][0]} (representation {r['kind']} -> {now['kind']})")
+            continue
         diffs = []
         if now["offset"] != r["offset"]:
             diffs.append(f"MOVED: offset {r['offset']} -> {now['offset']}")
